@@ -186,15 +186,15 @@ theorem patchNew_ne_panic (merge isObj : Bool) (pa : Path)
 theorem patch_mutual_ne_panic (sw : Bool) (before remove add after : List Json) :
     (∀ merge n pa, patchNode sw merge n pa before remove add after ≠ .panic) ∧
     (∀ i rest xs, i < xs.length → patchListChild sw i rest before remove add after xs ≠ .panic) ∧
-    (∀ lf po rest pre xs, patchKeyed sw lf po rest before remove add after pre xs ≠ .panic) ∧
+    (∀ tol lf po rest pre xs, patchKeyed sw tol lf po rest before remove add after pre xs ≠ .panic) ∧
     (∀ merge kvs k rest, (alookup k kvs).isSome →
       patchObjChild sw merge kvs k rest before remove add after ≠ .panic) := by
   apply patchNode.mutual_induct sw before remove add after
     (motive1 := fun merge n pa => patchNode sw merge n pa before remove add after ≠ .panic)
     (motive2 := fun i rest xs => i < xs.length →
       patchListChild sw i rest before remove add after xs ≠ .panic)
-    (motive3 := fun lf po rest pre xs =>
-      patchKeyed sw lf po rest before remove add after pre xs ≠ .panic)
+    (motive3 := fun tol lf po rest pre xs =>
+      patchKeyed sw tol lf po rest before remove add after pre xs ≠ .panic)
     (motive4 := fun merge kvs k rest => (alookup k kvs).isSome →
       patchObjChild sw merge kvs k rest before remove add after ≠ .panic)
   all_goals intros
@@ -238,10 +238,10 @@ theorem patchListChild_ne_panic (sw : Bool) (i : Nat) (rest : Path)
     patchListChild sw i rest before remove add after xs ≠ .panic :=
   (patch_mutual_ne_panic sw before remove add after).2.1 i rest xs h
 
-theorem patchKeyed_ne_panic (sw : Bool) (lf : UInt64) (po : List (String × Json)) (rest : Path)
+theorem patchKeyed_ne_panic (sw tol : Bool) (lf : UInt64) (po : List (String × Json)) (rest : Path)
     (before remove add after : List Json) (pre xs : List Json) :
-    patchKeyed sw lf po rest before remove add after pre xs ≠ .panic :=
-  (patch_mutual_ne_panic sw before remove add after).2.2.1 lf po rest pre xs
+    patchKeyed sw tol lf po rest before remove add after pre xs ≠ .panic :=
+  (patch_mutual_ne_panic sw before remove add after).2.2.1 tol lf po rest pre xs
 
 /-- `o[k].patch(rest, …)` does not panic when the key is present (the caller's `alookup` guard) -/
 theorem patchObjChild_ne_panic (sw merge : Bool) (kvs : List (String × Json)) (k : String)
